@@ -74,8 +74,8 @@ IsPrefix(p, s) == Len(p) <= Len(s) /\ \A i \in 1..Len(p) : p[i] = s[i]
 
 FreshEp(c) ==
   [e \in E |->
-     IF e = "C" THEN InitEp("C", CertOfId(c.idC, "C"), KeyOfId(c.idC, "C"), IF c.idC = "certC" THEN "dhC" ELSE "dhMc", "rC", ExpFp(c.fpC, "C"))
-                ELSE InitEp("S", CertOfId(c.idS, "S"), KeyOfId(c.idS, "S"), IF c.idS = "certS" THEN "dhS" ELSE "dhMs", "rS", ExpFp(c.fpS, "S"))]
+     IF e = "C" THEN InitEp("C", CertOfId(c.idC, "C"), AlsoOfId(c.idC, "C"), KeyOfId(c.idC, "C"), IF c.idC = "certC" THEN "dhC" ELSE "dhMc", "rC", ExpFp(c.fpC, "C"))
+                ELSE InitEp("S", CertOfId(c.idS, "S"), AlsoOfId(c.idS, "S"), KeyOfId(c.idS, "S"), IF c.idS = "certS" THEN "dhS" ELSE "dhMs", "rS", ExpFp(c.fpS, "S"))]
 
 \* a fresh pair, both started (the client's ClientHello is owed)
 ResetTo(c) ==
